@@ -77,6 +77,7 @@ def seeded():
     before.update(_read_eval(f"{V}/seeded/BASELINE_eval_before_strengthening.txt"))
     before.update(_read_eval(f"{V}/seeded/ROUND2_eval_before_strengthening.txt"))
     before.update(_read_eval(f"{V}/seeded/ROUND3_eval_before_strengthening.txt"))
+    before.update(_read_eval(f"{V}/seeded/ROUND4_eval_before_strengthening.txt"))
     now = _read_eval(f"{V}/seeded/EVAL_current.txt")
     out = ["| change | what it does (author's words, first line) | check at the time it was seeded | check now (rules that fire) |", "|---|---|---|---|"]
     nb = nn = n = 0
@@ -85,7 +86,7 @@ def seeded():
         meta = json.load(open(f"{d}/meta.json"))
         note = meta.get("needs_to_manifest_and_notes") or meta.get("notes") or ""
         first = " ".join(note.strip().split("\n")[0].split())
-        first = re.sub(r"^[mn]\d\s*[-:–]\s*", "", first)
+        first = re.sub(r"^[mnMN]\d\s*[-:–—]\s*", "", first)
         if len(first) > 170:
             first = first[:167] + "..."
         first = first.replace("|", "\\|")
